@@ -166,9 +166,10 @@ func runC01(c *Ctx) {
 			u := g.U
 			ps := g.ParamExprs(ma)
 			loops := loopsOf(ma)
-			sites := callsTo(ma, fhb)
+			// the hashed windows: FastHashBetween(s, lo, hi) or FastHash(s[lo:hi])
+			sites := append(callsTo(ma, fhb), callsTo(ma, fh)...)
 			if len(sites) == 0 {
-				c.Fail("C01.R3", "ShortcutsTable.MatchAll: window hash", ma.Pos(), "UNDECIDED: no call of FastHashBetween (the probe side hashes windows with it today)")
+				c.Fail("C01.R3", "ShortcutsTable.MatchAll: window hash", ma.Pos(), "UNDECIDED: no call of FastHashBetween / FastHash (the probe side hashes windows with them)")
 			}
 			for _, site := range sites {
 				ce := s.Env[site.(ssa.Value)]
@@ -184,17 +185,27 @@ func runC01(c *Ctx) {
 					continue
 				}
 				ct := countedLoop(u, s, l)
-				str, lo, hi := ce.Args[0], ce.Args[1], ce.Args[2]
+				var str, lo, hi *E
+				switch {
+				case ce.Op == "call" && ce.Aux == calleeName(fhb) && len(ce.Args) >= 3:
+					str, lo, hi = ce.Args[0], ce.Args[1], ce.Args[2]
+				case ce.Op == "call" && ce.Aux == calleeName(fh) && len(ce.Args) >= 1 && ce.Args[0].Op == "slice" && ce.Args[0].Args[1] != nil && ce.Args[0].Args[2] != nil:
+					str, lo, hi = ce.Args[0].Args[0], ce.Args[0].Args[1], ce.Args[0].Args[2]
+				default:
+					c.Fail("C01.R3", "ShortcutsTable.MatchAll: window hash", site.Pos(), "UNDECIDED: the hashed value is not a window s[lo:hi] of a string: "+clip(u.Show(ce), 100))
+					continue
+				}
 				if ct == nil {
 					c.Fail("C01.R3", "ShortcutsTable.MatchAll: complete window enumeration", site.Pos(), "UNDECIDED: not a counted loop")
 					continue
 				}
 				K, okK := constDiff(u, lo, hi, ct.Idx)
-				c.Check(okK && lo == ct.Idx && K > 0, "C01.R3", "ShortcutsTable.MatchAll: hashed range is [i, i+K)", site.Pos(), fmt.Sprintf("K = %d", K),
-					"the hashed range is not [i, i+K) for the loop index i: "+u.Show(lo)+" .. "+u.Show(hi))
-				if okK {
+				d, okD := constDiff(u, ct.Idx, lo, ct.Idx)
+				c.Check(okK && okD && K > 0, "C01.R3", "ShortcutsTable.MatchAll: hashed range is [i, i+K)", site.Pos(), fmt.Sprintf("K = %d", K),
+					"the hashed range is not [i+d, i+d+K) for the loop index i: "+u.Show(lo)+" .. "+u.Show(hi))
+				if okK && okD {
 					Kprobe = K
-					why := windowsComplete(u, ct, u.Len(str), K)
+					why := windowsCompleteAt(u, ct, u.Len(str), K, d)
 					c.Check(why == "", "C01.R3", "ShortcutsTable.MatchAll: complete window enumeration", site.Pos(),
 						fmt.Sprintf("visits exactly the starts i with i+%d <= len, for all lengths 0..%d", K, 2*K+2), why)
 				}
@@ -249,12 +260,24 @@ func runC01(c *Ctx) {
 			if keygen == nil {
 				c.Fail("C01.R3", "anchor:shortcut key generator", ta.Pos(), "unresolved anchor: TryAdd calls no function returning []string")
 			} else {
+				// the generator is evaluated as part of TryAdd (whatever it is handed: the rule or its
+				// shortcut), so that its keys are stated in terms of TryAdd's rule
 				g := NewGate(c.P)
-				g.Inline = inlineOnly()
-				s := g.Eval(keygen)
+				g.Inline = inlineOnly(FuncName(keygen))
+				sTop := g.Eval(ta)
 				u := g.U
 				c.Fn(FuncName(keygen))
-				ps := g.ParamExprs(keygen)
+				var s *Summary
+				for _, sub := range g.Subs {
+					if sub.Fn == keygen {
+						s = sub
+					}
+				}
+				if s == nil {
+					c.Fail("C01.R3", "shortcut key generator: windows", keygen.Pos(), "UNDECIDED: the key generator is not evaluated as part of TryAdd")
+					s = sTop
+				}
+				ruleP := g.ParamExprs(ta)[1]
 				loops := loopsOf(keygen)
 				n := 0
 				for _, em := range emissionsOf(keygen, s, 0) {
@@ -275,7 +298,7 @@ func runC01(c *Ctx) {
 					}
 					K, okK := constDiff(u, sl.Args[1], sl.Args[2], ct.Idx)
 					src := sl.Args[0]
-					okSrc := src.Op == "field" && src.Aux == "Shortcut" && src.Args[0] == ps[0] && sl.Args[1] == ct.Idx
+					okSrc := src.Op == "field" && src.Aux == "Shortcut" && src.Args[0] == ruleP && sl.Args[1] == ct.Idx
 					c.Check(okK && okSrc && K == Kprobe, "C01.R3", "shortcut key generator: keys are windows of the shortcut of the probe width", em.Call.Pos(),
 						fmt.Sprintf("Shortcut[i:i+%d], probe width %d", K, Kprobe),
 						fmt.Sprintf("keys are %s with width %d (constant=%v) but the probe hashes windows of width %d: no URL window can ever hit", clip(u.Show(sl), 80), K, okK, Kprobe))
@@ -299,45 +322,33 @@ func runC01(c *Ctx) {
 				c.Fn(FuncName(ta))
 				okKey := ""
 				nUpd := 0
-				eachInstr(ta, func(_ *ssa.BasicBlock, in ssa.Instruction) {
-					mu, ok := in.(*ssa.MapUpdate)
-					if !ok {
-						return
+				for ei := range st.Effects {
+					mef := &st.Effects[ei]
+					if mef.Kind != "mapupdate" || !(mef.Addr.Op == "field" && strings.Contains(mef.Addr.Aux, "LookupTable")) {
+						continue
 					}
-					if ld, ok := mu.Map.(*ssa.UnOp); !ok {
-						return
-					} else if _, f, ok := fieldOf(ld.X); !ok || !strings.Contains(f, "LookupTable") {
-						return
+					mu, ok := mef.Ins.(*ssa.MapUpdate)
+					if !ok {
+						continue
 					}
 					nUpd++
 					// key provenance: φ over FastHash(range element of keygen result) and the zero init
-					seen := map[ssa.Value]bool{}
-					var prov func(v ssa.Value)
-					prov = func(v ssa.Value) {
-						if seen[v] {
-							return
-						}
-						seen[v] = true
-						switch x := v.(type) {
-						case *ssa.Phi:
-							for _, e := range x.Edges {
-								prov(e)
-							}
+					for _, leaf := range provLeaves(gt, AV{mef.Act, mu.Key}) {
+						switch x := leaf.V.(type) {
 						case *ssa.Const:
 						case *ssa.Call:
 							if x.Call.StaticCallee() != fh {
 								okKey = "the stored key is not computed by FastHash: " + x.String()
-								return
+								continue
 							}
-							ae := st.Env[x.Call.Args[0]]
+							ae := leaf.Act.Env[x.Call.Args[0]]
 							if ae == nil || ae.Op != "index" || ae.Args[0].Op != "call" || ae.Args[0].Aux != calleeName(keygen) {
 								okKey = "the hashed string is not one of the generated windows: " + clip(ut.Show(ae), 100)
 							}
 						default:
-							okKey = "UNDECIDED: key derived from " + v.String()
+							okKey = "UNDECIDED: key derived from " + leaf.V.String()
 						}
 					}
-					prov(mu.Key)
 					// reached only when at least one window exists
 					var kg *E
 					for _, ef := range st.Effects {
@@ -347,11 +358,11 @@ func runC01(c *Ctx) {
 					}
 					if kg != nil && okKey == "" {
 						empty := ut.ToBool(ut.Eq(ut.Len(kg), ut.Int(0)))
-						if !ut.bdd.Implies(st.RC[mu.Block()], ut.bdd.Not(empty)) {
+						if !ut.bdd.Implies(mef.Cond, ut.bdd.Not(empty)) {
 							okKey = "the key can be stored although no window was generated (hash 0 bucket)"
 						}
 					}
-				})
+				}
 				if nUpd == 0 {
 					okKey = "UNDECIDED: TryAdd updates no lookup map"
 				}
@@ -658,25 +669,25 @@ func checkDomainTryAdd(c *Ctx, rule string, ta, fh *ssa.Function) {
 	c.Fn(FuncName(ta))
 	ps := g.ParamExprs(ta)
 	loops := loopsOf(ta)
-	var upd *ssa.MapUpdate
-	eachInstr(ta, func(_ *ssa.BasicBlock, in ssa.Instruction) {
-		if mu, ok := in.(*ssa.MapUpdate); ok {
-			upd = mu
+	var upd *Effect
+	for i := range s.Effects {
+		if s.Effects[i].Kind == "mapupdate" {
+			upd = &s.Effects[i]
 		}
-	})
+	}
 	key := "DomainsTable.TryAdd: every permitted domain keyed"
 	if upd == nil {
 		c.Fail(rule, key, ta.Pos(), "UNDECIDED: no map update")
 		return
 	}
-	ok, coll, why := fullUnconditionalLoop(u, s, loops, upd)
-	ke := s.Env[upd.Key]
+	ok, coll, why := fullUnconditionalLoopAt(u, s, loops, topBlockOf(upd.Act, upd.Ins), upd.Cond)
+	ke := upd.Key
 	pd := u.Field(ps[1], "permittedDomains", nil)
 	collE := s.Env[coll]
 	okKey := ke != nil && ke.Op == "call" && ke.Aux == calleeName(fh) && ke.Args[0].Op == "index" && collE != nil && ke.Args[0].Args[0] == collE && collE.key == pd.key
-	val := s.Env[upd.Value]
+	val := upd.Val
 	okVal := val != nil && val.Op == "append" && val.Aux == "elems" && len(val.Args) == 2 && val.Args[1] == ps[2]
-	c.Check(ok && okKey && okVal, rule, key, upd.Pos(), "complete unconditional loop over permittedDomains; bucket[FastHash(domain)] gets the storage index",
+	c.Check(ok && okKey && okVal, rule, key, upd.Pos, "complete unconditional loop over permittedDomains; bucket[FastHash(domain)] gets the storage index",
 		fmt.Sprintf("not every permitted domain is keyed with the rule's storage index (loop: %s; key is FastHash(element of permittedDomains)=%v; value appends the index=%v)", why, okKey, okVal))
 
 	// wildcard-TLD values: a complete pre-scan returning false on HasSuffix(element, ".*")
